@@ -104,7 +104,9 @@ def call(entry, x, tol=1e-9):
     if entry == "polygon_interior_angle_fn":
         return [H.polygon_interior_angle(5, x)]
     if entry == "number_like":
-        return [utils.number(2, like=x)]
+        # the VALUE is the caller's number; `like` only says what kind of arithmetic is wanted: a fractional value or one
+        # beyond the range of a narrow template type must come back unchanged whatever the template's packaging
+        return [utils.number(2, like=x), utils.number(0.5, like=x), utils.number(300, like=x), utils.number(-1.25, like=x)]
     if entry == "zeros_like":
         return [utils.zeros((2, 2), like=x) + 1]
     if entry == "identity_like":
